@@ -140,7 +140,8 @@ def prepare_aspirate_dispense_parameters(
         raise ValueError(f"Invalid forced_rack_type: {forced_rack_type}")
 
     # apply rounding and corrections for the right string formatting
-    volume_str = f"{numpy.round(volume, decimals=2):.2f}"
+    # (adding 0.0 turns a negative zero into "0.00" instead of "-0.00")
+    volume_str = f"{numpy.round(volume, decimals=2) + 0.0:.2f}"
     tip = "" if tip == -1 else tip
     return rack_label, position, volume_str, liquid_class, tip, rack_id, tube_id, rack_type, forced_rack_type
 
